@@ -237,11 +237,11 @@ type genFeat struct {
 	Quals []genQual
 }
 type genRec struct {
-	want  gbRec
-	feats []genFeat
+	want                              gbRec
+	feats                             []genFeat
 	defw, accw, verw, kww, srcw, orgw []string
-	refs  [][7][]string
-	others [][2]interface{}
+	refs                              [][7][]string
+	others                            [][2]interface{}
 }
 
 func wordsN(rng *rand.Rand, n int, extra string) []string {
@@ -319,7 +319,7 @@ func genGbRecordN(rng *rand.Rand, fixedN, maxSeq, maxFeats int) (lines []string,
 	if fixedN > 0 {
 		n = fixedN
 	}
-	switch rng.Intn(4) * map[bool]int{true: 0, false: 1}[fixedN > 0] + map[bool]int{true: 9, false: 0}[fixedN > 0] {
+	switch rng.Intn(4)*map[bool]int{true: 0, false: 1}[fixedN > 0] + map[bool]int{true: 9, false: 0}[fixedN > 0] {
 	case 0:
 		n = 1 + rng.Intn(130)
 	case 1: // at and next to the boundaries of the 60-letter ORIGIN lines and their 10-letter blocks
